@@ -55,7 +55,8 @@ def nontrivial(c, r):
 
 # ---------------------------------------------------------------- mutation search
 
-MUT_OPS = ["del", "dup", "swap", "trunc", "unbalance", "nonascii", "deep", "relines", "rerandom"]
+MUT_OPS = ["del", "dup", "swap", "trunc", "unbalance", "nonascii", "deep", "relines", "rerandom", "wsuni", "respell", "window"]
+UNI_WS = ["\u00a0", "\u3000", "\u2003", "\u0085", "\u2028", "\u1680", "\u205f"]
 WIDTHS = ["20", "40", "100", "200"]
 TABS = ["1", "4", "8"]
 
@@ -66,6 +67,31 @@ def mutate(toks, op, rnd):
         return None
     if op in ("relines", "rerandom"):
         return pool.relayout(toks, "lines" if op == "relines" else "random", rnd)      # the same program, laid out differently
+    if op == "window":
+        return "".join(t for _, t in toks)           # the program itself; the case adds a partial file_lines selection
+    if op == "respell":
+        from . import c09
+        return c09.respell("".join(t for _, t in toks), rnd.choice(["cyr", "wide"]))
+    if op == "wsuni":
+        # white space INSIDE comments re-spelled with non-ASCII white-space characters (the lexer accepts anything there)
+        cm = [i for i, (k, t) in enumerate(toks) if k in ("lc", "bc", "dlo", "dli", "dbo", "dbi") and (" " in t or "\t" in t)]
+        if not cm:
+            return None
+        t = [list(x) for x in toks]
+        for i in rnd.sample(cm, min(len(cm), 1 + len(cm) // 3)):
+            body = t[i][1]
+            pos = [j for j, c in enumerate(body) if c in " \t"]
+            how = rnd.random()
+            if how < 0.4:
+                pick = pos[:1]                                   # the blank right after the opener
+            elif how < 0.7:
+                pick = [j for j in pos if j == 0 or body[j - 1] in "\n \t"] or pos[:1]      # indentation of continuation lines
+            else:
+                pick = rnd.sample(pos, min(len(pos), 3))
+            u = rnd.choice(UNI_WS)
+            body = "".join(u if j in pick else c for j, c in enumerate(body))
+            t[i][1] = body
+        return "".join(x[1] for x in t)
     t = [list(x) for x in toks]
     i = rnd.choice(sig)
     if op == "del":
@@ -151,6 +177,96 @@ def sweep_cases(tier, seed):
     return out
 
 
+EXOTIC = [
+    "impl S { reuse a::b; }", "trait T { reuse x::y; fn f(); }", "reuse a::b as c;", "reuse a::{b, c};", "impl S { reuse a::{b, c} { self.0 } }",
+    "extern \"a\nb\" {}", "unsafe extern \"C\" { pub safe fn f(); pub unsafe fn g(); static X: u8; }", "extern { type Opaque; fn variadic(a: u8, ...); }",
+    "fn f() { let g = gen { yield 1; yield 2; }; let h = async gen move { yield 3; }; }", "fn f() { become g(1, 2); }", "fn f() -> u8 { do yeet 1 }",
+    "fn f() { let x = try { a()?; b()? }; }", "fn f() { let _ = builtin # offset_of(Type, field); }", "fn f(x: &pin mut T, y: &pin const U) {}",
+    "impl const Trait for S {}", "fn f<T: ~const Trait + [const] Other>() {}", "fn f() -> impl Sized + use<'a, T> {}", "default impl<T> Trait for T {}",
+    "auto trait Marker {}", "unsafe auto trait M2 {}", "macro m($a:expr) { $a + 1 }", "pub macro n { ($x:ty) => { $x }, () => {} }", "trait Alias = Clone + Send;",
+    "type X = impl Trait;", "fn f() { let Some(x) = y else { return }; }", "fn f() { if let Some(a) = b && c && let D(e) = f { } }",
+    "fn f() { match x { (A | B) if c => 1, (y if y > 0) | Z => 2, const { 1 } => 3, deref!(p) => 4, _ => 5 } }", "fn f() { let c\"c string\" = cr#\"raw c\"#; }",
+    "fn r#fn<'r#a>(r#x: &'r#a u8) {}", "static X: _ = 1;", "const _: () = ();", "fn f() { let mut ref x = y; let ref mut z = w; }", "fn f() { super let x = 1; }",
+    "fn f() { let c = for<'a> |x: &'a u8| -> &'a u8 { x }; let d = const || 1; let e = static move || { yield; }; }", "fn f(x: unsafe<'a> &'a u8) {}",
+    "fn f() { x = #[attr] y + #[other] { 1 }; #[attr] if a { } #[a] loop { } }", "fn f() where for<'a> &'a T: Trait<Out = u8>, [T; N]: , {}",
+    "impl<T> S<T> { pub const unsafe extern \"C\" fn f() {} pub(in crate::a) default async fn g(&self) {} }", "fn f() { let x: pattern_type!(u32 is 1..) = 1; }",
+    "enum E { A = 1 << 2, #[a] B { #[b] x: u8 }, C(#[c] u8), }", "struct S<const N: usize = { 1 + 2 }, T = [u8; N]>([T; N]);", "union U { a: core::mem::ManuallyDrop<u8> }",
+    "fn f() { 'a: { break 'a; } 'b: for _ in 0..1 { continue 'b } }", "fn f() { let _ = &raw mut x; let _ = &raw const y; let _ = x.await; let _ = x?.y?; }",
+    "#![feature(x)]\n#![rustfmt::skip::macros(m)]\nfn f() { m!( a  b ); }", "mod m { #![allow(x)] }", "fn f() { unsafe { asm!(\"nop\", in(reg) x, options(nomem)); } }",
+    "fn f() { let x = 0x_1f_u8 + 1e10_f64 + 0b1_0 + 1_u128 + 'a' as u8 + b'\\n' + b\"x\"[0]; }", "fn f(self: &'_ mut Self, _: impl for<'a> Fn(&'a u8)) -> Box<dyn for<'a> Tr<'a> + '_> {}",
+    "pub(self) use self::super::a as _;", "extern crate self as this;", "#[cfg_attr(a, derive(B), doc = \"c\")]\n#[doc = include_str!(\"x.md\")]\nstruct S;",
+    "fn f() { return; } fn g() -> ! { loop {} } fn h() { let _: ! = panic!(); }", "fn f() { a..b; ..b; a..; ..; a..=b; ..=b; }", "fn f() { if a {} else if b {} else {} while c {} }",
+    "impl<'a> !Send for &'a S {}", "fn f<'a, 'b: 'a, T: 'a + ?Sized + for<'c> Tr<'c>, const N: usize>() {}", "fn f() { let (a, .., z) = t; let [first, rest @ ..] = arr; let S { x, .. } = s; let 0..=9 | 20.. = n; }",
+    "fn f() { m! {}; m![]; m!(); a::b::m!{ x }; }", "macro_rules! e { () => {}; ($($x:tt),* $(,)?) => { $($x)* }; }", "fn f() { let x = box_syntax!(1); yield_!(2); }",
+    "fn f() {\n    let s = \"line one  \n\n  line three\";\n}", "// only a comment", "", "\n\n\n", "#!/usr/bin/env run\nfn f() {}", "\ufefffn f() {}",
+]
+WINDOW_LINES = ["// c  ", "//~  marker  ", "/* open  ", "   text   ", "*/  ", "", "", "fn  a( ) {", "    let s = \"abc  ", "  x\";  ", "}", "const S: &str = \"abc  ", "x\";", "#[attr]  ", "struct  T ;  ",
+                "    // inner  ", "    let y=1 ;   ", "\t", "impl  X { ", "    fn m( &self ) { }  ", "/// doc  ", "//! inner doc  ", "mod m {", "use a::{b,  c} ;  "]
+
+
+COMMENT_FORMS = ["// plain comment text", "//~ ERROR marker text", "//- note text", "//@ directive: value", "//! inner doc text", "/// outer doc text", "//// four slashes",
+                 "//x no blank", "//\ttab after", "/* block text */", "/** doc block */", "/*! inner block */", "/*** stars ***/", "/* first line\n * second line\n * third\n */",
+                 "/*\n   * indented star\n   text without star\n*/", "// * item one\n// * item two\n//   continued", "// 1. numbered\n// 2) other", "// > quote text\n// > more",
+                 "// ```\n// code  block\n// ```", "/// # Heading\n///\n/// - bullet with `code`\n///   continued line", "// TODO(name): something  \n//   aligned", "//"]
+
+
+def comment_cases(tier, seed):
+    """every comment form with each of its blanks (one at a time, or all) re-spelled as a non-ASCII white-space character, at four
+    placements, with and without comment rewriting"""
+    out = []
+    rnd = random.Random("c16-comments-%d" % seed)
+    for fi, form in enumerate(COMMENT_FORMS):
+        pos = [j for j, c in enumerate(form) if c in " \t"]
+        variants = [form]
+        for u in UNI_WS:
+            for j in pos[:4] + pos[-1:]:
+                variants.append(form[:j] + u + form[j + 1:])
+            variants.append("".join(u if c in " \t" else c for c in form))
+        if tier != "thorough":
+            variants = [variants[0]] + [v for i, v in enumerate(variants[1:]) if (i + fi + seed) % 3 == 0]
+        for vi, v in enumerate(variants):
+            line_comment = v.lstrip().startswith("//")
+            texts = ["fn a() {}\n%s\nfn b() {}\n" % v,
+                     "fn a() {\n    let x = 1; %s\n    let y = 2;\n}\n" % (v if "\n" not in v else v.split("\n")[0] + (" */" if not line_comment else "")),
+                     "fn a() {\n    %s\n    call();\n}\n" % v.replace("\n", "\n    "),
+                     "struct S {\n    a: u8, %s\n    b: u8,\n}\n" % (v.split("\n")[0] + (" */" if not line_comment and "\n" in v else ""))]
+            for ti, text in enumerate(texts):
+                for ci, extra in enumerate(([], [["wrap_comments", "true"], ["normalize_comments", "true"], ["max_width", "40"]])):
+                    out.append(({"text": text, "config": [["edition", "2024"], ["error_on_unformatted", "true"]] + extra, "again": False, "lex": False}, ("comment/%d.%d.%d.%d" % (fi, vi, ti, ci), "100")))
+    return out
+
+
+def extra_cases(tier, seed):
+    """(a) syntax the parser accepts but the formatter rarely sees (unstable features, odd literals, degenerate files) at
+    several widths; (b) partial file_lines selections over texts whose unselected lines end in blanks (comments, string
+    continuation lines, attributes) next to empty lines"""
+    out = []
+    for i, e in enumerate(EXOTIC):
+        for w in ("20", "40", "100"):
+            for extra in ([], [["wrap_comments", "true"], ["normalize_comments", "true"], ["format_strings", "true"]]):
+                out.append(({"text": e + "\n", "config": [["max_width", w], ["edition", "2024"], ["error_on_line_overflow", "true"], ["error_on_unformatted", "true"]] + extra, "again": False, "lex": False}, ("exotic/%d" % i, w)))
+    out += comment_cases(tier, seed)
+    rnd = random.Random("c16-window-%d" % seed)
+    for k in range(400 if tier != "thorough" else 6000):
+        n = rnd.randint(2, 9)
+        lines = [rnd.choice(WINDOW_LINES) for _ in range(n)]
+        a = rnd.randint(1, n)
+        if k % 2:
+            # the selection starts (or ends) exactly at a seam: a line ending in blanks on one side, an empty or ordinary line on the other
+            j = rnd.randint(0, n - 2)
+            lines[j] = rnd.choice([l for l in WINDOW_LINES if l.endswith(" ") or l.endswith("\t")])
+            lines[j + 1] = rnd.choice(["", "", "fn  z( ) { }", "    "])
+            a = j + 2 if rnd.random() < 0.7 else rnd.randint(1, j + 1)
+        text = "\n".join(lines) + "\n"
+        b = min(n, a + rnd.choice([0, 0, 1, 2, 5]))
+        if k % 2 and a <= j + 1:
+            b = j + 1
+        cfg = [["max_width", rnd.choice(["20", "60", "100"])], ["error_on_line_overflow", "true"], ["error_on_unformatted", "true"],
+               ["file_lines", json.dumps([{"file": "stdin", "range": [a, b]}])]]
+        out.append(({"text": text, "config": cfg, "again": False, "lex": False}, ("window/%d.%d" % (seed, k), cfg[0][1])))
+    return out
+
+
 def loc_key(at):
     at = at or "?"
     at = re.sub(r"^.*/registry/src/[^/]+/", "", at)
@@ -166,7 +282,7 @@ def hkey(s):
 def search(rep, tier, seed):
     P = pool.load()
     MOD = 10
-    K = 8                    # mutants per program
+    K = 11                   # mutants per program
     lexed = common.run_vh_pool("lex", [{"text": p["text"]} for p in P], per_case_timeout=20)
     cases, meta = [], []
     for p, toks in zip(P, lexed):
@@ -189,12 +305,21 @@ def search(rep, tier, seed):
             over = [["max_width", w], ["tab_spaces", ts], ["hard_tabs", ht], ["error_on_line_overflow", "true"], ["error_on_unformatted", "true"]]
             if int(w) < 5 * int(ts):
                 continue         # "a usable page: at least five indentation steps wide"
+            if op == "window":
+                nl = text.count("\n") + 1
+                a = rnd.randint(1, nl)
+                b = min(nl, a + rnd.choice([0, 0, 1, 3, 10]))
+                over = over + [["file_lines", json.dumps([{"file": "stdin", "range": [a, b]}])]]
             cases.append({"text": text, "config": pool.merged(p["header"], over), "again": False, "lex": False})
             meta.append((p["id"], k, op, w, ts, ht))
     n_mut = len(cases)
     for c, (sid, w) in sweep_cases(tier, seed):
         cases.append(c)
         meta.append((sid, 0, "sweep", str(w), "4", "false"))
+    n_sweep = len(cases) - n_mut
+    for c, (sid, w) in extra_cases(tier, seed):
+        cases.append(c)
+        meta.append((sid, 0, "extra", str(w), "4", "false"))
     res = common.run_vh_pool("pool", cases, per_case_timeout=12)
     found = 0
     outcome = {"ok": 0, "rejected": 0, "panic": 0, "timeout": 0, "crash": 0}
@@ -220,10 +345,12 @@ def search(rep, tier, seed):
         else:
             outcome["rejected"] += 1
     rep.coverage["mutants_run"] = n_mut
-    rep.coverage["margin_sweep_runs"] = len(cases) - n_mut
+    rep.coverage["margin_sweep_runs"] = n_sweep
+    rep.coverage["exotic_and_window_runs"] = len(cases) - n_mut - n_sweep
+    rep.coverage["exotic_and_window_rule"] = "%d forms of syntax the parser accepts but the formatter rarely sees (delegation, unsafe extern, gen / try blocks, pinned references, const traits, decl macros, odd literals, degenerate files) x max_width 20/40/100 x {default, comment and string rewriting on}; random texts of 2..9 lines drawn from %d line shapes (comments, string continuation lines, attributes and items ending in blanks, empty lines) with a random partial file_lines selection; %d comment forms (plain, custom openers, doc, block, itemized, quoted, code fences) with each blank re-spelled as one of %d non-ASCII white-space characters, at four placements, with and without comment rewriting" % (len(EXOTIC), len(WINDOW_LINES), len(COMMENT_FORMS), len(UNI_WS))
     rep.coverage["margin_sweep_rule"] = "%d expression forms x %d binding patterns x {let statement, call argument in a nested block} and %d item forms x {top level, two modules deep}, each at every max_width 20..130 (quick: every third width and half of the combinations, selected by the seed), edition 2024" % (len(SWEEP_EXPRS), len(SWEEP_PATS), len(SWEEP_ITEMS))
     rep.coverage["mutant_outcomes"] = outcome
-    rep.coverage["search_rule"] = "pool programs x (original + %d token-level mutants: delete / duplicate / swap / truncate / unbalance a delimiter / insert non-ASCII / wrap in 4..12 parentheses, re-layout with every gap a newline / random gaps; deterministic per program) x rotating max_width %s x tab_spaces %s x hard_tabs, error_on_line_overflow and error_on_unformatted on (so reports are rendered); thorough: all, quick: the 1/%d slice selected by the seed; in-process in worker processes, 12 s per case; a panic is keyed by its source location" % (K, WIDTHS, TABS, MOD)
+    rep.coverage["search_rule"] = "pool programs x (original + %d token-level mutants: delete / duplicate / swap / truncate / unbalance a delimiter / insert non-ASCII / wrap in 4..12 parentheses, re-layout with every gap a newline / random gaps, white space inside comments re-spelled with non-ASCII white-space characters, string and comment text re-spelled in multi-byte letters, a random partial file_lines selection; deterministic per program) x rotating max_width %s x tab_spaces %s x hard_tabs, error_on_line_overflow and error_on_unformatted on (so reports are rendered); thorough: all, quick: the 1/%d slice selected by the seed; in-process in worker processes, 12 s per case; a panic is keyed by its source location" % (K, WIDTHS, TABS, MOD)
     found += binary_probe(rep, cases[:n_mut][:: max(1, n_mut // 60)])
     found += module_probe(rep)
     found += sub_site_phase(rep, found)
@@ -249,7 +376,7 @@ def binary_probe(rep, sample):
         if p.returncode not in (0, 1):
             err = p.stderr.decode("utf-8", "replace")
             m = re.search(r"panicked at ([^\n:]+:\d+)", err)
-            key = "exit_status:%s" % (loc_key(m.group(1)) if m else p.returncode)
+            key = ("panic:%s" % loc_key(m.group(1))) if m else "exit_status:%s" % p.returncode      # the same key as the in-process search: one defect, one finding
             if rep.violation(key, {"config": c["config"], "input": c["text"], "rc": p.returncode, "stderr": err[-600:]},
                              "the rustfmt binary exited with status %d: %s" % (p.returncode, err[-200:])):
                 found += 1
